@@ -1430,3 +1430,4 @@ class Engine:
 
     max_spurious = 1
     stop_on_assert = False
+    mark_hook = None
